@@ -29,10 +29,8 @@ REPLAY_ROOT = os.environ.get("PYVC_REPLAY_DIR") or os.path.join(os.path.dirname(
 
 
 def load_contracts(prop):
-    mods = []
-    for p in sorted(glob.glob(os.path.join(HERE, "contracts", prop + "*.py"))):
-        mods.append(importlib.import_module("contracts." + os.path.basename(p)[:-3]))
-    return mods
+    from pyvc import harness
+    return harness.load_contracts(prop, HERE)
 
 
 # ---------------------------------------------------------------------------------------
